@@ -1,5 +1,5 @@
 ------------------------ MODULE AlertPersistTraceMC ------------------------
 EXTENDS AlertPersistTrace
-MCIds == {"a", "b"}
+MCIds == {"a", "ab"}   \* one ID is a proper prefix of the other (the store is key-ordered)
 MCModesAll == {"node", "svc"}
 =============================================================================
